@@ -262,6 +262,9 @@ class WRes:
                 resp.media = SLOT['doc']
             elif step == 'set2':
                 resp.media = SLOT['doc2']
+            elif step == 'mut1':
+                SLOT['doc']['n'] = SLOT['doc'].get('n', 0) + 1      # amend the document in place ...
+                resp.media = SLOT['doc']                            # ... and assign it again
             else:
                 resp.render_body()
 
@@ -297,6 +300,9 @@ class ARes:
                 resp.media = SLOT['doc']
             elif step == 'set2':
                 resp.media = SLOT['doc2']
+            elif step == 'mut1':
+                SLOT['doc']['n'] = SLOT['doc'].get('n', 0) + 1
+                resp.media = SLOT['doc']
             else:
                 await resp.render_body()
 
@@ -385,8 +391,11 @@ def parse(stack, flavour, sym, ct, body, hist, variant):
         if stack == 'wsgi':
             res = wdrv.call(app, method='POST', raw_path='/m', headers=[('Content-Type', ct)], body=body, input_kind=variant)
         else:
-            res = adrv.call(app, method='POST', raw_path='/m',
-                            headers=[('Content-Type', ct), ('Content-Length', str(len(body)))],
+            hdrs = [('Content-Type', ct), ('Content-Length', str(len(body)))]
+            if variant and variant[0] == 'nocl':
+                variant = tuple(variant[1:])
+                hdrs = hdrs[:1]
+            res = adrv.call(app, method='POST', raw_path='/m', headers=hdrs,
                             body=body, chunks=split_at(body, variant) if body else None)
     return res, SLOT.get('log')
 
@@ -422,9 +431,13 @@ def body_outcome(ct, body):
 def variants_for(stack, n, tier, rich=True):
     if stack == 'wsgi':
         return ['buffered']
+    # 'nocl' marks an ASGI request WITHOUT a Content-Length header (chunked transfer coding): the body
+    # is whatever the events carry
     if not rich:
-        return [(), tuple(range(1, n))] if n > 1 else [()]
-    return asgi_chunkings(n, tier)
+        base = [(), tuple(range(1, n))] if n > 1 else [()]
+        return base + [('nocl',) + base[-1]]
+    cks = asgi_chunkings(n, tier)
+    return cks + [('nocl',) + cks[0], ('nocl',) + cks[-1]]
 
 
 def check_history(rep, part, stack, flavour, sym, ct, body, hist, variant, bodykind):
@@ -673,16 +686,23 @@ def case_H(case, rep):
 
 def case_P(case, rep):
     sym = case['sym']
-    d1, d2 = {sym: 1}, [2, 'é']
+    d2 = [2, 'é']
     for n in range(1, case['maxlen'] + 1):
-        for hist in itertools.product(('set1', 'set2', 'render'), repeat=n):
+        for hist in itertools.product(('set1', 'set2', 'render', 'mut1'), repeat=n):
             rep.state()
             last = None
+            cur1 = {sym: 1}
             for s in hist:
-                if s != 'render':
-                    last = d1 if s == 'set1' else d2
+                if s == 'set1':
+                    last = dict(cur1)
+                elif s == 'set2':
+                    last = d2
+                elif s == 'mut1':
+                    cur1['n'] = cur1.get('n', 0) + 1
+                    last = dict(cur1)
             for stack in ('wsgi', 'asgi'):
                 for ct in (falcon.MEDIA_JSON, vendor_type(sym)):
+                    d1 = {sym: 1}
                     try:
                         res = emit(stack, 'stock', sym, ct, d1, hist, d2)
                     except watchdog.Hang:
@@ -704,8 +724,8 @@ def case_P(case, rep):
                     if not good:
                         rep.violation({'kind': 'stale-rendered-media', 'stack': stack, 'ct': ct_class(ct), 'body': '', 'exc': ''},
                                       {'part': 'P', 'sym': sym, 'maxlen': len(hist), 'only': list(hist)},
-                                      'response history %r (d1=%r, d2=%r) on %s as %s: the wire body must be the serialisation of %r, got %r'
-                                      % (list(hist), d1, d2, stack, ct, last, getattr(res, 'body', None)))
+                                      'response history %r (set1/mut1 use one dict object, amended in place by mut1; d2=%r) on %s as %s: the wire body must be the serialisation of %r, got %r'
+                                      % (list(hist), d2, stack, ct, last, getattr(res, 'body', None)))
 
 
 CASE_FUNCS = {'R': case_R, 'L': case_L, 'K': case_K, 'H': case_H, 'P': case_P}
@@ -828,7 +848,7 @@ def check(rep):
         'special floats are excluded by the property; custom dumps/loads are not generated (a counting loads wraps json.loads)',
         'form mappings: str -> str, or str -> list of >= 2 str (a one-element list is documented to come back as a str)',
         'lenient readings of structurally broken form bodies are not pinned here (C08); they must be a dict or MediaMalformedError',
-        'ASGI requests carry Content-Length, as real servers send it',
+        'ASGI requests are sent both with Content-Length and without it (chunked transfer coding)',
         'wsgi.input.read(n) returns n bytes unless the body ends (short-reading inputs are the subject of C07)',
     ]
     nshards = 64 if quick else 256
